@@ -118,6 +118,7 @@ class Report:
         for d in res.get('distinct', []):
             self.distinct.add(d)
         self.validated += res.get('validated', 0)
+        self.concolic = getattr(self, 'concolic', 0) + res.get('concolic', 0)
         self.validation_mismatches.extend(res.get('validation_mismatches', []))
         for k, v in res.get('vacuity', {}).items():
             self.vacuity[k] = self.vacuity.get(k, False) or v
@@ -146,6 +147,7 @@ class Report:
                        'cross_checked_with_cvc5': dict(self.cross)},
             'mir_steps_executed': self.steps,
             'obligations_discharged': self.obligations,
+            'concolic_completions_of_unfinished_paths': getattr(self, 'concolic', 0),
             'jobs': self.jobs,
             'vacuity_witnesses': self.vacuity,
             'kernels': self.kernels,
